@@ -261,7 +261,7 @@ func render(format string, items []Item, l Layout) []byte {
 
 var (
 	uriAlpha  = []string{"/", "/a?b=c&d=e"}
-	tagAlpha  = []string{"", "t", "two words"}
+	tagAlpha  = []string{"", "t", "two words", "a  b\tc"}
 	bodyAlpha = [][]byte{nil, []byte("a"), []byte("a\nb"), []byte("[x]"), []byte("1 /z"), {0x00, 0xff}, []byte("\r\n")}
 	// JSON strings cannot carry invalid UTF-8; the binary body is replaced by control and non-ASCII characters
 	bodyAlphaJSON = [][]byte{nil, []byte("a"), []byte("a\nb"), []byte("[x]"), []byte("{\"q\":1}"), []byte("\x00\x7fé"), []byte("\r\n")}
